@@ -8,6 +8,7 @@ package gscen
 
 import (
 	"context"
+	"errors"
 	"fmt"
 	"sort"
 	"strings"
@@ -15,6 +16,7 @@ import (
 	"time"
 
 	"github.com/twmb/franz-go/pkg/kadm"
+	"github.com/twmb/franz-go/pkg/kerr"
 	"github.com/twmb/franz-go/pkg/kfake"
 	"github.com/twmb/franz-go/pkg/kgo"
 	"github.com/twmb/franz-go/pkg/kmsg"
@@ -832,6 +834,9 @@ func (g *G) FetchCommitted() (map[TP]int64, error) {
 	ctx, cancel := context.WithTimeout(context.Background(), time.Minute)
 	defer cancel()
 	resp, err := kadm.NewClient(h).FetchOffsets(ctx, Group)
+	if errors.Is(err, kerr.GroupIDNotFound) { // nothing was ever committed and nobody is left
+		return map[TP]int64{}, nil
+	}
 	if err != nil {
 		return nil, err
 	}
